@@ -37,7 +37,14 @@ class Executor(ExecResolve):
         m = getattr(self, "s_" + type(stmt).__name__, None)
         if m is None:
             raise EngineError(f"unsupported statement {type(stmt).__name__}")
-        outs = list(m(stmt, st))
+        # numbered obligations (index#, key#, pre:...#) are named after the statement they belong to (function label + line +
+        # ordinal within the statement): stable under path pruning elsewhere in the function
+        saved = (self.cur_line, self.stmt_counters)
+        self.cur_line, self.stmt_counters = getattr(stmt, "lineno", 0), {}
+        try:
+            outs = list(m(stmt, st))
+        finally:
+            self.cur_line, self.stmt_counters = saved
         outs.extend(self.drain_pending())
         return outs
 
